@@ -332,9 +332,6 @@ var _ *wasm.ModuleInstance
 //@ iface (f api.Function) Call(ctx context.Context, params ...uint64) ([]uint64, error)
 //@   ensures (r1 != nil ==> gl("L:startFailed") == 1) && (r1 == nil ==> gl("L:startFailed") == old(gl("L:startFailed"))) && gl("L:closedSince") == 0
 //@   modifies all, ghost("L:startFailed"), ghost("L:closedSince")
-//@ iface (m api.Module) Close(ctx context.Context) error
-//@   ensures gl("L:closedSince") == 1 && gl("L:startFailed") == old(gl("L:startFailed"))
-//@   modifies all, ghost("L:startFailed"), ghost("L:closedSince")
 //@ func (m *wasm.ModuleInstance) Close(ctx context.Context) error
 //@   trusted
 //@   ensures gl("L:closedSince") == 1 && gl("L:startFailed") == old(gl("L:startFailed"))
